@@ -11,7 +11,8 @@ Abstract inputs (small JSON):
       ['e', ev, snd, args, kw, single]           emit(event, sender, *args, **kw[, single=...]); single None|bool
   kind 'histx': inp = {'ops': [...as 'hist'...], 'raise': [fid, ...]}: the callbacks with these ids raise after
       recording the call; an emit is then observed as ['raise', calls made] when the exception propagated
-  kind 'prog': inp = {'ops': [['inc'] | ['v', x] | ['m', x] | ['sc'] | ['rs', None|x], ...]}
+  kind 'prog': inp = {'ops': [['inc'] | ['v', x] | ['m', x] | ['sc'] | ['rs', None|x], ...]}; 'inc' and 'sc' may carry
+      a second element [[key, value], ...] = keyword arguments k<key>=value of increment() / set_complete()
 """
 import itertools
 
@@ -106,6 +107,8 @@ SMALL = [C(F0), C(F1, style=0, sf=0), C(F2, style=0, last=True), U(F0), U(0), R,
 
 PSMALL = [['inc'], ['v', 0], ['v', 1], ['v', 2], ['v', 5], ['m', 0], ['m', 1], ['m', 2], ['m', 5], ['sc'],
           ['rs', None], ['rs', 1], ['rs', 5]]
+KWS = [[[0, 3]], [[1, 4]], [[0, 5], [1, 1]], []]
+PKW = [['inc', [[0, 3]]], ['inc'], ['sc', [[0, 5], [1, 1]]], ['v', 1], ['m', 2], ['m', 0], ['rs', None]]
 PQUICK = [['inc'], ['v', 0], ['v', 2], ['m', 0], ['m', 2], ['m', 5], ['sc'], ['rs', None], ['rs', 2], ['rs', 5]]
 
 
@@ -212,13 +215,13 @@ def _rand_prog(rng, lo, hi):
     for _ in range(rng.randint(lo, hi)):
         r = rng.random()
         if r < 0.3:
-            ops.append(['inc'])
+            ops.append(['inc'] if rng.random() < 0.6 else ['inc', rng.choice(KWS)])
         elif r < 0.5:
             ops.append(['v', rng.choice(vals)])
         elif r < 0.7:
             ops.append(['m', rng.choice(vals)])
         elif r < 0.8:
-            ops.append(['sc'])
+            ops.append(['sc'] if rng.random() < 0.6 else ['sc', rng.choice(KWS)])
         else:
             ops.append(['rs', rng.choice([None] + vals)])
     return _prog(ops)
@@ -272,6 +275,10 @@ def corpus():
     cs.append(_prog([['m', 2], ['v', 5], ['m', 5], ['inc'], ['m', 7], ['v', 7]]))
     cs.append(_prog([['m', 2], ['v', 2], ['rs', 0], ['inc'], ['rs', 2], ['inc'], ['inc']]))
     cs.append(_prog([['m', -2], ['v', -3], ['v', -2], ['rs', -1], ['inc']]))
+    # --- stage 3: keyword arguments, is_complete(), progress, message callbacks ---
+    cs.append(_prog([['m', 2], ['inc', [[0, 3]]], ['inc', [[0, 4], [1, 1]]], ['inc', [[1, 2]]], ['sc', [[0, 9]]]]))
+    cs.append(_prog([['inc', [[0, 1]]], ['m', 3], ['sc', [[0, 2]]], ['v', 5], ['m', 8], ['v', 3], ['m', -4], ['v', -1]]))
+    cs.append(_prog([['m', 3], ['v', 1], ['v', 2], ['m', 9], ['v', 5], ['v', 7], ['rs', 5], ['v', 3]]))  # inexact quotients
     return cs
 
 
@@ -290,8 +297,9 @@ def generate(tier, rng):
     cases += list(_exhaustive_prog(PQUICK if quick else PSMALL, 4 if quick else 5))
     if quick:
         cases += list(_exhaustive_prog(PSMALL, 3))
+    cases += list(_exhaustive_prog(PKW, 3 if quick else 5))
     cases += list(_exhaustive_histx(4 if quick else 5))
-    nh, np_ = (6000, 3000) if quick else (60000, 30000)
+    nh, np_ = (5000, 2500) if quick else (60000, 30000)
     for _ in range(nh):
         cases.append(_rand_hist(rng, 2, 9 if quick else 12))
     for _ in range(np_):
@@ -504,7 +512,31 @@ def _run_hist(ops, cfg, raisers=()):
     return out
 
 
+_TOK = None
+
+
+def _tokens(text):
+    """Lines printed by the message callbacks -> ['P', k0|None, ends_line] / ['C', k0|None]; None if unparsable."""
+    global _TOK
+    import re
+    if _TOK is None:
+        _TOK = re.compile(r'P(\?|-?\d+)(\r|\n)|C(\?|-?\d+)\x1b\[K\n')
+    out, pos = [], 0
+    while pos < len(text):
+        m = _TOK.match(text, pos)
+        if not m:
+            return None
+        if m.group(1) is not None:
+            out.append(['P', None if m.group(1) == '?' else int(m.group(1)), m.group(2) == '\n'])
+        else:
+            out.append(['C', None if m.group(3) == '?' else int(m.group(3))])
+        pos = m.end()
+    return out
+
+
 def _run_prog(ops):
+    import contextlib
+    import io
     import phylib.utils as pu
     from phylib.utils.event import ProgressReporter
     pu.reset()
@@ -516,33 +548,49 @@ def _run_prog(ops):
 
         @pu.connect(sender=pr)
         def on_progress(sender, value, value_max, **kwargs):
-            log.append(['p', _dec_int(value), _dec_int(value_max)] if sender is pr else ['x'])
+            log.append(['p', _dec_int(value), _dec_int(value_max), _dec_kw(kwargs)] if sender is pr else ['x'])
 
         @pu.connect(sender=pr)
         def on_complete(sender, **kwargs):
-            log.append(['c'] if sender is pr else ['x'])
-        other.value_max = 1
-        other.value = 1
+            log.append(['c', _dec_kw(kwargs)] if sender is pr else ['x'])
+        # the message callbacks (registered after the recording ones): what they print is observed
+        pr.set_progress_message('P{k0}')
+        pr.set_complete_message('C{k0}')
+        other.set_complete_message('OTHER')
+        buf0 = io.StringIO()
+        with contextlib.redirect_stdout(buf0):
+            other.value_max = 1
+            other.value = 1
         out = []
         for o in ops:
             n0 = len(log)
             k = o[0]
-            if k == 'inc':
-                pr.increment()
-            elif k == 'v':
-                pr.value = o[1]
-            elif k == 'm':
-                pr.value_max = o[1]
-            elif k == 'sc':
-                pr.set_complete()
-            elif k == 'rs':
-                if o[1] is None:
-                    pr.reset()
+            kw = dict(('k%d' % a, b) for a, b in (o[1] if k in ('inc', 'sc') and len(o) > 1 else []))
+            buf = io.StringIO()
+            with contextlib.redirect_stdout(buf):
+                if k == 'inc':
+                    pr.increment(**kw)
+                elif k == 'v':
+                    pr.value = o[1]
+                elif k == 'm':
+                    pr.value_max = o[1]
+                elif k == 'sc':
+                    pr.set_complete(**kw)
+                elif k == 'rs':
+                    if o[1] is None:
+                        pr.reset()
+                    else:
+                        pr.reset(o[1])
                 else:
-                    pr.reset(o[1])
-            else:
-                raise ValueError(k)
-            out.append([log[n0:], _dec_int(pr.value), _dec_int(pr.value_max)])
+                    raise ValueError(k)
+            try:
+                pg = pr.progress
+                pg = list(pg.as_integer_ratio()) if isinstance(pg, float) and pg == pg and abs(pg) != float('inf') \
+                    else ['weird']
+            except ZeroDivisionError:
+                pg = None
+            out.append([log[n0:], _dec_int(pr.value), _dec_int(pr.value_max), bool(pr.is_complete()), pg,
+                        _tokens(buf.getvalue())])
         return out
     finally:
         pu.reset()
@@ -653,27 +701,52 @@ def _xobs(x):
     raise ValueError(k)
 
 
+def _kwd(kw):
+    return q.lst(sorted(kw), lambda p: q.pair(q.z(p[0]), q.z(p[1])))
+
+
 def _pop(o):
     k = o[0]
+    kw = o[1] if k in ('inc', 'sc') and len(o) > 1 else []
     if k == 'inc':
-        return 'PInc'
-    if k == 'v':
-        return '(PSetValue %s)' % q.z(o[1])
-    if k == 'm':
-        return '(PSetMax %s)' % q.z(o[1])
-    if k == 'sc':
-        return 'PSetComplete'
-    if k == 'rs':
-        return '(PReset %s)' % q.opt(o[1])
-    raise ValueError(k)
+        base = 'PInc'
+    elif k == 'v':
+        base = '(PSetValue %s)' % q.z(o[1])
+    elif k == 'm':
+        base = '(PSetMax %s)' % q.z(o[1])
+    elif k == 'sc':
+        base = 'PSetComplete'
+    elif k == 'rs':
+        base = '(PReset %s)' % q.opt(o[1])
+    else:
+        raise ValueError(k)
+    return '(mkpk %s %s)' % (base, _kwd(kw))
 
 
 def _pev(e):
     if e[0] == 'p':
-        return '(EvProgress %s %s)' % (q.z(e[1]), q.z(e[2]))
+        return '(EvProgress %s %s, %s)' % (q.z(e[1]), q.z(e[2]), _kwd(e[3]))
     if e[0] == 'c':
-        return 'EvComplete'
-    return '(EvProgress (-99) (-99))'
+        return '(EvComplete, %s)' % _kwd(e[1])
+    return '(EvProgress (-99) (-99), [])'
+
+
+def _ptok(t):
+    if t[0] == 'P':
+        return '(TokProgress %s %s)' % (q.opt(t[1]), q.b(t[2]))
+    return '(TokComplete %s)' % q.opt(t[1])
+
+
+def _pobsx(x):
+    evs, v, m, isc, pg, toks = x
+    if pg is None:
+        pgs = 'None'
+    elif pg == ['weird']:
+        pgs = '(Some (0, 0))'
+    else:
+        pgs = '(Some (%s, %s))' % (q.z(pg[0]), q.z(pg[1]))
+    tk = q.lst(toks, _ptok) if toks is not None else '[TokComplete (Some (-99)); TokComplete (Some (-99))]'
+    return '(mkpobsx %s %s %s %s %s %s)' % (q.lst(evs, _pev), q.z(v), q.z(m), q.b(isc), pgs, tk)
 
 
 def encode(case, obs):
@@ -687,8 +760,7 @@ def encode(case, obs):
         cobs = 'ObsCrash' if crash else q.app('ObsHistX', q.lst(obs[1], lambda run: q.lst(run, _xobs)))
     elif k == 'prog':
         cin = q.app('InProg', q.lst(i['ops'], _pop))
-        cobs = 'ObsCrash' if crash else q.app('ObsProg', q.lst(
-            obs[1], lambda x: '(mkpobs %s %s %s)' % (q.lst(x[0], _pev), q.z(x[1]), q.z(x[2]))))
+        cobs = 'ObsCrash' if crash else q.app('ObsProg', q.lst(obs[1], _pobsx))
     else:
         raise ValueError(k)
     return cin, cobs
@@ -701,7 +773,7 @@ def nontrivial(case, obs):
         return any(x[0] == 'emit' and (x[1] or x[2][0] == 'none') for x in obs[1][0])
     if case['kind'] == 'histx':
         return any(x[0] == 'raise' for x in obs[1][0])
-    return any(['c'] in x[0] for x in obs[1])
+    return any(e[0] == 'c' for x in obs[1] for e in x[0])
 
 
 def _bucket(n):
@@ -745,7 +817,12 @@ def dist(case, obs):
         if any(o[0] == 'c' and o[6] for o in ops):
             out.append('hist.has_last')
     else:
-        out.append('prog.completions=%s' % _bucket(sum(1 for x in obs[1] if ['c'] in x[0])))
+        out.append('prog.completions=%s' % _bucket(sum(1 for x in obs[1] if any(e[0] == 'c' for e in x[0]))))
+        if any(o[0] in ('inc', 'sc') and len(o) > 1 and o[1] for o in ops):
+            out.append('prog.has_kwargs')
+        if any(x[4] is None for x in obs[1]):
+            out.append('prog.has_progress_zerodivision')
+        out.append('prog.printed_lines=%s' % _bucket(sum(len(x[5] or []) for x in obs[1])))
         if any(o[0] == 'rs' for o in ops):
             out.append('prog.has_reset')
     return out
@@ -804,6 +881,8 @@ def shrink(case):
                 alts.append(o[:5] + [None] + o[6:])
             if o[3] is not None:
                 alts.append(o[:3] + [None] + o[4:])
+        elif o[0] in ('inc', 'sc') and len(o) > 1:
+            alts.append([o[0]])
         elif o[0] in ('v', 'm') and o[1] not in (0, 1):
             alts.append([o[0], 1])
         elif o[0] == 'rs' and o[1] not in (None, 1):
@@ -826,17 +905,20 @@ def repro(case):
            "from vt import npshim; npshim.setup_process()\n")
     if k == 'prog':
         lines = ["from phylib.utils.event import ProgressReporter, connect, reset", "reset(); pr = ProgressReporter()",
-                 "connect(lambda sender, v, m, **k: print('  progress', v, m), event='progress', sender=pr)",
-                 "connect(lambda sender, **k: print('  COMPLETE'), event='complete', sender=pr)"]
+                 "connect(lambda sender, v, m, **k: print('  progress', v, m, k), event='progress', sender=pr)",
+                 "connect(lambda sender, **k: print('  COMPLETE', k), event='complete', sender=pr)",
+                 "pr.set_progress_message('P{k0}'); pr.set_complete_message('C{k0}')"]
         for o in ops:
-            stmt = {'inc': 'pr.increment()', 'sc': 'pr.set_complete()'}.get(o[0])
+            kws = ', '.join('k%d=%d' % (a, b) for a, b in (o[1] if o[0] in ('inc', 'sc') and len(o) > 1 else []))
+            stmt = {'inc': 'pr.increment(%s)' % kws, 'sc': 'pr.set_complete(%s)' % kws}.get(o[0])
             if o[0] == 'v':
                 stmt = 'pr.value = %d' % o[1]
             elif o[0] == 'm':
                 stmt = 'pr.value_max = %d' % o[1]
             elif o[0] == 'rs':
                 stmt = 'pr.reset(%s)' % ('' if o[1] is None else o[1])
-            lines.append("print(%r); %s" % (stmt, stmt))
+            lines.append("print(%r); %s; print('   is_complete', pr.is_complete(), 'value', pr.value, 'max', pr.value_max)"
+                         % (stmt, stmt))
         return pre + '\n'.join(lines) + '\n'
     return pre + ("from vt.props import c19\n"
                   "case = %r\n"
